@@ -21,5 +21,14 @@ try:
 except Exception as e:
     print('setup: replay build failed', e)
     sys.exit(1)
+# warm the Kani harness crate (dependencies are compiled once by the pinned Kani toolchain): one cheap harness
+try:
+    sys.path.insert(0, '/verif/kani')
+    import kanirun
+    kanirun.prepare()
+    res = kanirun.verify(['frame_len_all_pairs'], 2, 300, 900, 'setup')
+    print('kani warm-up:', [(r.name, r.status) for r in (res if isinstance(res, list) else list(res.values()) if isinstance(res, dict) else [])][:2])
+except Exception as e:
+    print('setup: kani warm-up failed (checks will build on first use):', str(e)[:300])
 print('setup done in %.0fs' % (time.time() - t))
 PY
